@@ -79,7 +79,7 @@ func Supervise(m *Monitor, env *Env) *Summary {
 		timeout = m.Timeout(env.Tier)
 	}
 	if timeout <= 0 {
-		timeout = map[string]int{"quick": 240, "thorough": 3000}[env.Tier]
+		timeout = map[string]int{"quick": 900, "thorough": 3600}[env.Tier]
 	}
 	first := int64(0)
 	if only := os.Getenv("VERIF_ONLY"); only != "" { // debugging aid: VERIF_ONLY=a:b restricts the run to case indices [a,b)
